@@ -91,6 +91,11 @@ def table_columns(table, fields=None):
     return {f: column(table, f) for f in fields}
 
 
+class UnequalColumns(Exception):
+    """a table whose columns do not all have len(table) values: a fault of the table under observation, not of the harness"""
+    library_fault = True
+
+
 def rows_of(table, fields=None):
     """list of tuples (one per entry), columns normalised; touching every field."""
     cols = table_columns(table, fields)
@@ -98,7 +103,7 @@ def rows_of(table, fields=None):
     n = len(table)
     for k in names:
         if len(cols[k]) != n:
-            raise AssertionError("column %s has %d values, table has %d entries" % (k, len(cols[k]), n))
+            raise UnequalColumns("column %s has %d values, table has %d entries" % (k, len(cols[k]), n))
     return [tuple(_hashable(cols[k][i]) for k in names) for i in range(n)]
 
 
